@@ -5,6 +5,7 @@ package explore
 import (
 	"fmt"
 	"reflect"
+	"time"
 	"regexp"
 	"sort"
 	"strings"
@@ -19,6 +20,7 @@ import (
 type Config struct {
 	Mode    int // 0 async polarized, 1 sync polarized, 2 sync non-polarized
 	Monitor bool
+	DelayMS int // RuntimeEnvironment.Delay in (virtual) milliseconds
 }
 
 func (c Config) String() string {
@@ -26,10 +28,13 @@ func (c Config) String() string {
 	if c.Monitor {
 		m += "+monitor"
 	}
+	if c.DelayMS > 0 {
+		m += fmt.Sprintf("+delay%dms", c.DelayMS)
+	}
 	return m
 }
 
-var AllConfigs = []Config{{0, false}, {1, false}, {2, false}, {0, true}, {1, true}, {2, true}}
+var AllConfigs = []Config{{Mode: 0}, {Mode: 1}, {Mode: 2}, {Mode: 0, Monitor: true}, {Mode: 1, Monitor: true}, {Mode: 2, Monitor: true}}
 
 // Exec is the digest of one execution.
 type Exec struct {
@@ -120,7 +125,7 @@ func RunOnce(text string, cfg Config, prefix []int, opts vsched.Options, skipTC 
 		case 2:
 			ev = process.NON_POLARIZED_SYNC
 		}
-		re := &process.RuntimeEnvironment{GlobalEnvironment: env, ExecutionVersion: ev, Typechecked: !skipTC, UseMonitor: cfg.Monitor, Color: false}
+		re := &process.RuntimeEnvironment{GlobalEnvironment: env, ExecutionVersion: ev, Typechecked: !skipTC, UseMonitor: cfg.Monitor, Color: false, Delay: time.Duration(cfg.DelayMS) * time.Millisecond}
 		vsched.Branching(true)
 		process.InitializeProcesses(procs, nil, nil, re)
 		ex.Returned = true
